@@ -324,4 +324,193 @@ theorem c02f_step_mul {l : Level} {T : Array NTTTables} (h : c02f_LevelOK l T) {
   rw [e33] at hF
   omega
 
+
+/-! ## D. the induction and the theorem -/
+
+def FProg.shadow (n : Nat) (M : Nat → Nat → Int) : FProg → Nat → Int
+  | .inp i => M i
+  | .neg p => fun j => - p.shadow n M j
+  | .add p q => fun j => p.shadow n M j + q.shadow n M j
+  | .sub p q => fun j => p.shadow n M j - q.shadow n M j
+  | .mul p q => negMulR n (p.shadow n M) (q.shadow n M)
+
+/-- THE INDUCTION (BFV): whenever the model does not refuse and the bookkeeping (which checks `2V < Q` at every node) succeeds, it returns
+    the size of the result and a bound on its invariant noise, and the message part of the result's phase is the shadow value modulo t -/
+theorem c02f_prog_inv {l : Level} {T : Array NTTTables} (h : c02f_LevelOK l T) {sk : Array Int} (hsk : sk.size = l.n) {S : Nat}
+    (hS : ∑ k ∈ range l.n, (sk.getD k 0).natAbs ≤ S) (cts : Nat → Ct) (M : Nat → Nat → Int) (inB : Nat → Nat × Nat) :
+    ∀ (prog : FProg) (r : Ct),
+      (∀ i ∈ prog.ctInputs, c02f_Enc l sk (cts i) (M i) (inB i).2 ∧ (cts i).polys.size = (inB i).1) →
+      prog.eval l T cts = .ok r →
+      ∀ s V, prog.noiseUB l.n l.t.value l.size l.tool.baseQ.prod S inB = some (s, V) →
+        s = r.polys.size ∧ c02f_Enc l sk r (prog.shadow l.n M) V := by
+  intro prog
+  induction prog with
+  | inp i =>
+    intro r hin hev s V hub
+    have hr : cts i = r := Except.ok.inj hev
+    subst hr
+    obtain ⟨he, hsz⟩ := hin i (by simp [FProg.ctInputs])
+    rw [FProg.noiseUB] at hub
+    have e : inB i = (s, V) := Option.some.inj hub
+    rw [e] at he hsz
+    exact ⟨hsz.symm, he⟩
+  | neg p ih =>
+    intro r hin hev s V hub
+    rw [FProg.eval] at hev
+    obtain ⟨a, hea, hra⟩ := c01p_bind_ok hev
+    rw [FProg.noiseUB] at hub
+    obtain ⟨hs, ea⟩ := ih a hin hea s V hub
+    obtain ⟨hsz, er⟩ := c02f_step_neg h hsk ea hra
+    exact ⟨by rw [hs, hsz], er⟩
+  | add p q ihp ihq =>
+    intro r hin hev s V hub
+    rw [FProg.eval] at hev
+    obtain ⟨a, hea, hev1⟩ := c01p_bind_ok hev
+    obtain ⟨b, heb, hrb⟩ := c01p_bind_ok hev1
+    rw [FProg.noiseUB] at hub
+    cases hp : p.noiseUB l.n l.t.value l.size l.tool.baseQ.prod S inB with
+    | none => rw [hp] at hub; simp at hub
+    | some x =>
+      cases hq : q.noiseUB l.n l.t.value l.size l.tool.baseQ.prod S inB with
+      | none => rw [hp, hq] at hub; simp at hub
+      | some y =>
+        obtain ⟨s1, b1⟩ := x
+        obtain ⟨s2, b2⟩ := y
+        rw [hp, hq] at hub
+        dsimp only at hub
+        split at hub
+        · rename_i hV
+          have e := Option.some.inj hub
+          obtain ⟨hs1, ea⟩ := ihp a (fun i hi => hin i (by simp [FProg.ctInputs, hi])) hea s1 b1 hp
+          obtain ⟨hs2, eb⟩ := ihq b (fun i hi => hin i (by simp [FProg.ctInputs, hi])) heb s2 b2 hq
+          obtain ⟨hsz, er⟩ := c02f_step_tr h hsk ea eb false hV hrb
+          have e1 : s = max s1 s2 := (congrArg Prod.fst e).symm
+          have e2 : V = b1 + b2 := (congrArg Prod.snd e).symm
+          subst e1 e2
+          refine ⟨by rw [hs1, hs2, hsz], ?_⟩
+          have er' : c02f_Enc l sk r (fun j => p.shadow l.n M j + q.shadow l.n M j) (b1 + b2) := by simpa using er
+          exact er'
+        · simp at hub
+  | sub p q ihp ihq =>
+    intro r hin hev s V hub
+    rw [FProg.eval] at hev
+    obtain ⟨a, hea, hev1⟩ := c01p_bind_ok hev
+    obtain ⟨b, heb, hrb⟩ := c01p_bind_ok hev1
+    rw [FProg.noiseUB] at hub
+    cases hp : p.noiseUB l.n l.t.value l.size l.tool.baseQ.prod S inB with
+    | none => rw [hp] at hub; simp at hub
+    | some x =>
+      cases hq : q.noiseUB l.n l.t.value l.size l.tool.baseQ.prod S inB with
+      | none => rw [hp, hq] at hub; simp at hub
+      | some y =>
+        obtain ⟨s1, b1⟩ := x
+        obtain ⟨s2, b2⟩ := y
+        rw [hp, hq] at hub
+        dsimp only at hub
+        split at hub
+        · rename_i hV
+          have e := Option.some.inj hub
+          obtain ⟨hs1, ea⟩ := ihp a (fun i hi => hin i (by simp [FProg.ctInputs, hi])) hea s1 b1 hp
+          obtain ⟨hs2, eb⟩ := ihq b (fun i hi => hin i (by simp [FProg.ctInputs, hi])) heb s2 b2 hq
+          obtain ⟨hsz, er⟩ := c02f_step_tr h hsk ea eb true hV hrb
+          have e1 : s = max s1 s2 := (congrArg Prod.fst e).symm
+          have e2 : V = b1 + b2 := (congrArg Prod.snd e).symm
+          subst e1 e2
+          refine ⟨by rw [hs1, hs2, hsz], ?_⟩
+          have er' : c02f_Enc l sk r (fun j => p.shadow l.n M j - q.shadow l.n M j) (b1 + b2) := by simpa using er
+          exact er'
+        · simp at hub
+  | mul p q ihp ihq =>
+    intro r hin hev s V hub
+    rw [FProg.eval] at hev
+    obtain ⟨a, hea, hev1⟩ := c01p_bind_ok hev
+    obtain ⟨b, heb, hrb⟩ := c01p_bind_ok hev1
+    rw [FProg.noiseUB] at hub
+    cases hp : p.noiseUB l.n l.t.value l.size l.tool.baseQ.prod S inB with
+    | none => rw [hp] at hub; simp at hub
+    | some x =>
+      cases hq : q.noiseUB l.n l.t.value l.size l.tool.baseQ.prod S inB with
+      | none => rw [hp, hq] at hub; simp at hub
+      | some y =>
+        obtain ⟨s1, b1⟩ := x
+        obtain ⟨s2, b2⟩ := y
+        rw [hp, hq] at hub
+        dsimp only at hub
+        split at hub
+        · rename_i hF
+          have e := Option.some.inj hub
+          obtain ⟨hs1, ea⟩ := ihp a (fun i hi => hin i (by simp [FProg.ctInputs, hi])) hea s1 b1 hp
+          obtain ⟨hs2, eb⟩ := ihq b (fun i hi => hin i (by simp [FProg.ctInputs, hi])) heb s2 b2 hq
+          subst hs1 hs2
+          obtain ⟨hsz, er⟩ := c02f_step_mul h hsk hS ea eb hF hrb
+          have e1 : s = a.polys.size + b.polys.size - 1 := (congrArg Prod.fst e).symm
+          have e2 : V = bfvMulF l.n l.t.value l.size S a.polys.size b.polys.size b1 b2 / 2^34 := (congrArg Prod.snd e).symm
+          subst e1 e2
+          exact ⟨hsz.symm, er⟩
+        · simp at hub
+
+/-- decryption below the BEHZ threshold: `2·γ·V + 2·|q|·Q ≤ Q·γ` (i.e. `V ≤ Q·(1/2 − |q|/γ)`, γ the auxiliary prime of `decryptScaleAndRound`) -/
+theorem c02f_decrypt_of_enc {l : Level} {T : Array NTTTables} (h : c02f_LevelOK l T) {sk : Array Int} (hsk : sk.size = l.n) {r : Ct}
+    {m : Nat → Int} {V : Nat} (he : c02f_Enc l sk r m V)
+    (hγ : 2 * l.tool.gamma.value * V + 2 * l.size * l.tool.baseQ.prod ≤ l.tool.baseQ.prod * l.tool.gamma.value) :
+    bfvDecrypt l sk r = .ok (Spec.trim (Array.ofFn (n := l.n) fun j => Spec.imod (m j.val) l.t.value)) := by
+  obtain ⟨cr, nr, vr, hV, mr⟩ := he
+  have hQ := h.qpos
+  have hPQ := c01p_prodL_qvals h.dec
+  have hr : r = ⟨r.polys, false, r.cf⟩ := by
+    cases r with
+    | mk polys ntt cf => simp only at nr; subst nr; rfl
+  have hν : ∀ j, j < l.n → 2 * (c07l_v true l.t.value l.tool.baseQ.prod (c02f_ph l sk r j)).natAbs < l.tool.baseQ.prod :=
+    fun j hj => by have := vr j hj; omega
+  rw [hr, bfvDecrypt_eq_spec h.wf h.dec hsk cr.two_le cr.canon r.cf (fun j hj => by
+    rw [hPQ]
+    obtain ⟨e1, _⟩ := c02x_split l.t.value hQ (c02f_ph l sk r j)
+    have hx : (Spec.phase (c01p_qvals l) l.n sk r.polys.toList).getD j 0 = c02f_ph l sk r j := rfl
+    rw [hx, exact_below_threshold hQ e1 (hν j hj)]
+    have e2 : (l.t.value : Int) * c02f_ph l sk r j - l.tool.baseQ.prod * c02x_msg l.t.value l.tool.baseQ.prod (c02f_ph l sk r j)
+        = c07l_v true l.t.value l.tool.baseQ.prod (c02f_ph l sk r j) := by rw [e1]; ring
+    rw [e2, Int.abs_eq_natAbs]
+    have h1 : 2 * l.tool.gamma.value * (c07l_v true l.t.value l.tool.baseQ.prod (c02f_ph l sk r j)).natAbs
+        ≤ 2 * l.tool.gamma.value * V := Nat.mul_le_mul_left _ (vr j hj)
+    exact_mod_cast le_trans (Nat.add_le_add_right h1 _) hγ)]
+  congr 2
+  rw [hPQ]
+  have hne := c01q_polys_ne cr.two_le
+  have hps := (c01q_phase_general h.lq (sk := sk) hne (fun p hp => (c01q_polys_mem cr.canon p hp).1) (c01q_n_pos h.wf)).1
+  apply array_ext_getD (n := l.n) (by simp [Spec.bfvDecode, hps]) (by simp)
+  intro j hj
+  rw [c02x_decode_msg l.t.value hQ _ (by rw [hps]; exact hj) (hν j hj), c01o_ofFn_getD _ _ _ hj]
+  exact c02x_imod_congr (mr j hj)
+
+/-- inputs: a canonical coefficient-form ciphertext whose exact phase splits as `t·x = Q·m + ν` with `‖ν‖∞ ≤ V`, `2V < Q` -/
+theorem c02f_enc_of_split {l : Level} {T : Array NTTTables} (h : c02f_LevelOK l T) {sk : Array Int} {ct : Ct} (hc : CtCanon l ct)
+    (hn : ct.ntt = false) (m ν : Nat → Int) (V : Nat)
+    (hsp : ∀ j, j < l.n → (l.t.value : Int) * c02f_ph l sk ct j = l.tool.baseQ.prod * m j + ν j)
+    (hν : ∀ j, j < l.n → (ν j).natAbs ≤ V) (hV : 2 * V < l.tool.baseQ.prod) : c02f_Enc l sk ct m V := by
+  have hQ := h.qpos
+  have hQ0 : (l.tool.baseQ.prod : Int) ≠ 0 := by exact_mod_cast (by omega : l.tool.baseQ.prod ≠ 0)
+  have hu : ∀ j, j < l.n → c07l_v true l.t.value l.tool.baseQ.prod (c02f_ph l sk ct j) = ν j :=
+    fun j hj => c07s_noise_unique (hsp j hj) (by have := hν j hj; omega)
+  refine ⟨hc, hn, fun j hj => by rw [hu j hj]; exact hν j hj, hV, fun j hj => ?_⟩
+  obtain ⟨er, _⟩ := c02x_split l.t.value hQ (c02f_ph l sk ct j)
+  have : (l.tool.baseQ.prod : Int) * c02x_msg l.t.value l.tool.baseQ.prod (c02f_ph l sk ct j) = l.tool.baseQ.prod * m j := by
+    rw [hu j hj] at er; have := hsp j hj; linarith
+  rw [Int.eq_of_mul_eq_mul_left hQ0 this]
+
+/-! ## Property theorem -/
+
+/-- THE PROGRAM-LEVEL HOMOMORPHISM THEOREM FOR BFV, ring operations (PARTIAL with respect to the operation list of C02: plaintext operations,
+    modulus switching and relinearisation are not composed for BFV; see notes).  For every BFV level satisfying the constructor bundles, every
+    secret with `‖s‖₁ ≤ S`, every program over negate / add / sub / multiply (all size pairs): if the model does not refuse, the bookkeeping
+    returns `(s, V)` and `V` is below the BEHZ decryption threshold, then `bfvDecrypt (eval prog)` is the shadow value modulo t. -/
+theorem hom_program_bfv_partial {l : Level} {T : Array NTTTables} (h : c02f_LevelOK l T) {sk : Array Int} (hsk : sk.size = l.n) {S : Nat}
+    (hS : ∑ k ∈ range l.n, (sk.getD k 0).natAbs ≤ S) (cts : Nat → Ct) (M : Nat → Nat → Int) (inB : Nat → Nat × Nat) (prog : FProg)
+    {r : Ct} (hin : ∀ i ∈ prog.ctInputs, c02f_Enc l sk (cts i) (M i) (inB i).2 ∧ (cts i).polys.size = (inB i).1)
+    (hev : prog.eval l T cts = .ok r) {s V : Nat}
+    (hub : prog.noiseUB l.n l.t.value l.size l.tool.baseQ.prod S inB = some (s, V))
+    (hγ : 2 * l.tool.gamma.value * V + 2 * l.size * l.tool.baseQ.prod ≤ l.tool.baseQ.prod * l.tool.gamma.value) :
+    bfvDecrypt l sk r = .ok (Spec.trim (Array.ofFn (n := l.n) fun j => Spec.imod (prog.shadow l.n M j.val) l.t.value)) := by
+  obtain ⟨_, he⟩ := c02f_prog_inv h hsk hS cts M inB prog r hin hev s V hub
+  exact c02f_decrypt_of_enc h hsk he hγ
+
 end HC
